@@ -181,6 +181,7 @@ Inductive op2 : Type :=
 | OpSetMintDeprecated (scripts_ok : bool) (es : list (bytes * bytes * Z))   (* set_mint (deprecated) *)
 | OpSetCertsDeprecated (l : list (cert * bool))                        (* set_certs (deprecated); bool = script credential *)
 | OpSetWithdrawalsDeprecated (l : list (N * N * bool))                 (* set_withdrawals (deprecated) *)
+| OpRemoveMint                                                         (* remove_mint_builder *)
 | OpProposalsKeyed (l : list (N * N)).                                 (* VotingProposalBuilder::add of (identity, deposit) items, then
                                                                           set_voting_proposal_builder: the builder is a map keyed by the
                                                                           proposal, so the same proposal added twice is there once *)
@@ -235,6 +236,8 @@ Definition run_op2 (utxos : list (N * value)) (x : op2) (s : state) (c : colstat
       with (res, s') => (res, s', c, None) end
   | OpSetCertsDeprecated l =>
       match pure_op s o (let* cs := set_certs l in Ok (set_s_certs (Some cs) s)) with (res, s') => (res, s', c, None) end
+  | OpRemoveMint =>
+      match pure_op s o (Ok (set_s_mint None s)) with (res, s') => (res, s', c, None) end
   | OpProposalsKeyed l =>
       match pure_op s o (Ok (set_s_proposals (Some (dedup_proposals l [])) s)) with (res, s') => (res, s', c, None) end
   | OpSetWithdrawalsDeprecated l =>
